@@ -129,6 +129,14 @@ pub struct Ctx<'a> {
 }
 
 pub const PREEXISTING: &[u8] = b"PRE-EXISTING DESTINATION CONTENT\n";
+pub const SIBLING: &[u8] = b"somebody else's file next to the destination\n";
+
+/// Names an implementation might be tempted to use for staging next to a destination.
+pub fn siblings(dest: &Path) -> Vec<PathBuf> {
+    let name = dest.file_name().map(|n| n.to_string_lossy().to_string()).unwrap_or_default();
+    let dir = dest.parent().unwrap_or(Path::new("/"));
+    vec![dir.join(format!("{name}.tmp")), dir.join(format!("{name}.partial")), dir.join(format!("{name}~")), dir.join(format!(".{name}.swp")), dir.join(format!("{name}.bak"))]
+}
 
 impl<'a> Ctx<'a> {
     pub fn new(cache: PathBuf, scratch: PathBuf, keys: &'a [String], blobs: &'a [Blob]) -> Ctx<'a> {
@@ -460,6 +468,32 @@ async fn do_write_async(ctx: &Ctx<'_>, s: &WriteSpec) -> Out {
                 Err(e) => return err_out(e),
             };
             for (ci, ch) in cut_chunks(&data, &s.chunks).into_iter().enumerate() {
+                let mut ch = ch;
+                // (only with plain writes: what is offered after a cancelled write must be the same
+                // buffer - a different one makes the library write it on top of the cancelled data,
+                // and whether the cancelled bytes count as written is then anybody's guess)
+                if s.vectored == 0 && s.cancel_chunk.map(|c| (c & 3) as usize == ci).unwrap_or(false) && !ch.is_empty() {
+                    use std::future::Future;
+                    let waker = futures::task::noop_waker();
+                    let mut cx = std::task::Context::from_waker(&waker);
+                    // (values 4.. : what is cancelled is the write of the first half of the chunk;
+                    // the whole chunk is offered afterwards, as a caller does who re-slices its
+                    // data from the last acknowledged position)
+                    let first = if s.cancel_chunk.unwrap_or(0) >= 4 { &ch[..(ch.len() + 1) / 2] } else { ch };
+                    let mut fut = Box::pin(w.write(first));
+                    let polled = fut.as_mut().poll(&mut cx);
+                    drop(fut);
+                    match polled {
+                        // it completed at once: k bytes are accepted, go on after them
+                        std::task::Poll::Ready(Ok(k)) => ch = &ch[k.min(ch.len())..],
+                        std::task::Poll::Ready(Err(e)) => return io_out(e),
+                        // cancelled in mid-flight: offer the same chunk again
+                        std::task::Poll::Pending => {}
+                    }
+                    if ch.is_empty() {
+                        continue;
+                    }
+                }
                 let r = if s.vectored > 0 { async_write_chunk_vectored(&mut w, ch, s.vectored as usize).await } else { async_write_chunk(&mut w, ch).await };
                 if let Err(e) = r {
                     return io_out(e);
@@ -648,8 +682,20 @@ fn prep_dest(ctx: &Ctx, dest: Dest) -> PathBuf {
         let _ = std::fs::remove_file(&p);
         return p;
     }
+    if dest == Dest::LongName {
+        let name = format!("dest_{n}_{}", "n".repeat(255));
+        let p = ctx.scratch.join(&name[..255]);
+        let _ = std::fs::remove_file(&p);
+        return p;
+    }
     let p = ctx.scratch.join(format!("dest_{n}"));
     let _ = std::fs::remove_file(&p);
+    if dest == Dest::WithSiblings {
+        for sib in siblings(&p) {
+            let _ = std::fs::remove_dir_all(&sib);
+            let _ = std::fs::write(&sib, SIBLING);
+        }
+    }
     if dest == Dest::Existing {
         std::fs::write(&p, PREEXISTING).expect("prepare destination");
     }
@@ -697,7 +743,17 @@ fn unit(r: cacache::Result<()>) -> Out {
 }
 
 fn extract_result(r: cacache::Result<Option<u64>>, dest: &Path) -> Out {
-    let st = dest_state(dest);
+    let mut st = dest_state(dest);
+    // somebody else's files next to the destination must be exactly as they were
+    let sibs = siblings(dest);
+    if sibs.iter().any(|s| s.exists()) {
+        for sib in &sibs {
+            if std::fs::read(sib).map(|b| b != SIBLING).unwrap_or(true) {
+                st = DestState::Other;
+            }
+            let _ = std::fs::remove_file(sib);
+        }
+    }
     if dest.starts_with("/var/tmp/cvh-x.") || dest.starts_with("/dev/shm/cvh-x.") {
         // destinations on the other filesystem are not kept
         let _ = std::fs::remove_file(dest);
@@ -970,6 +1026,13 @@ fn do_link_sync(ctx: &Ctx, l: &LinkSpec) -> Out {
             Err(e) => Err(e),
             Ok(mut lk) => {
                 for &n in &l.pre_reads {
+                    if n == usize::MAX {
+                        let mut all = Vec::with_capacity(16);
+                        if let Err(e) = lk.read_to_end(&mut all) {
+                            return io_out(e);
+                        }
+                        continue;
+                    }
                     let mut buf = vec![0u8; n.max(1)];
                     let r = if l.vectored_reads && buf.len() >= 2 {
                         let (a, b) = buf.split_at_mut(n.max(2) / 2);
@@ -1009,6 +1072,14 @@ async fn do_link_async(ctx: &Ctx<'_>, l: &LinkSpec) -> Out {
             Err(e) => Err(e),
             Ok(mut lk) => {
                 for &n in &l.pre_reads {
+                    if n == usize::MAX {
+                        // the runtime's own read_to_end (it hands over partly filled buffers)
+                        let mut all = Vec::with_capacity(16);
+                        if let Err(e) = lk.read_to_end(&mut all).await {
+                            return io_out(e);
+                        }
+                        continue;
+                    }
                     let mut buf = vec![0u8; n.max(1)];
                     if let Err(e) = lk.read(&mut buf).await {
                         return io_out(e);
